@@ -14,6 +14,8 @@ use vaporetto::verif_hooks::{take_trace, TraceItem};
 use vaporetto::{CharacterBoundary as CB, Model, Predictor, Sentence, SolverType, Trainer};
 
 use crate::util::{catch, hex, hexs, unhexs};
+#[allow(unused_imports)]
+use crate::model::AbsModel as AbsModelForOracle;
 
 #[derive(Clone)]
 pub struct TrCase {
@@ -369,10 +371,21 @@ fn oracle_c09(c: &TrCase, t: &Trained, bytes: &[u8], fails: &mut Vec<(String, St
                 texts.push(s.as_raw_text().to_string());
             }
         }
-        for text in texts {
+        // "every sentence": also a sentence object that another model's predictor has just scored (no update in between), and the
+        // corpus line itself as parsed (with its annotations and tags still on it)
+        let other = {
+            let m = AbsModelForOracle { char_w: 1, type_w: 1, bias: 7, char_ngrams: vec![("a".into(), vec![3, -5])], ..Default::default() };
+            Predictor::new(m.load()?, false).map_err(|e| e.to_string())?
+        };
+        let variants: Vec<(String, u8)> = texts.iter().flat_map(|t| [(t.clone(), 0u8), (t.clone(), 1u8)]).collect();
+        for (text, variant) in variants {
             let Ok(mut s) = Sentence::from_raw(text.clone()) else { continue };
+            if variant == 1 {
+                other.predict(&mut s);
+            }
             p.predict(&mut s);
-            let chars: Vec<char> = text.chars().collect();
+            let text = if variant == 1 { format!("{text} (sentence object scored by another model's predictor just before)") } else { text };
+            let chars: Vec<char> = s.as_raw_text().chars().collect();
             let got: Vec<i64> = s.boundary_scores().iter().map(|&x| x as i64).collect();
             let exp: Vec<i64> = (0..chars.len().saturating_sub(1))
                 .map(|b| bias + brute_features(c, &chars, b).iter().map(|(f, k)| wq.get(f).copied().unwrap_or(0) * k).sum::<i64>())
